@@ -20,6 +20,15 @@ func main() {
 		for _, id := range vf.IDs() {
 			fmt.Println(id, vf.Lookup(id).Title)
 		}
+	case "racepass":
+		n := 30
+		if len(os.Args) > 2 {
+			fmt.Sscan(os.Args[2], &n)
+		}
+		if vf.RacePassHook == nil {
+			os.Exit(2)
+		}
+		os.Exit(vf.RacePassHook(n))
 	case "selftest":
 		if err := vf.RunSelfTests(); err != nil {
 			fmt.Fprintln(os.Stderr, "selftest failed:", err)
